@@ -45,7 +45,23 @@ pub fn generate(cx: &super::GenCtx) -> Vec<Plan> {
         q.stalls = vec![(rng.range(1000, 400_000), 700_000_000), (rng.range(400_000, 3_000_000), 1_300_000_000)];
         return vec![p, q];
     }
-    let spec = gen::random_posspec(&mut rng);
+    let mut spec = gen::random_posspec(&mut rng);
+    if rng.chance(1, 6) {
+        // a long game behind the position: more than a hundred earlier positions to remember
+        let (ms, ps) = super::super::refmodel::playout(
+            &super::super::refmodel::Pos::start(),
+            rng.range(100, 160) as usize,
+            &mut rng,
+            false,
+        );
+        if ms.len() >= 100 && !ps.last().unwrap().legal_moves().is_empty() {
+            spec = gen::PosSpec {
+                cmd: format!("position startpos moves {}", gen::moves_str(&ms)),
+                dense: ps.last().unwrap().piece_count() > 12,
+                game: ps,
+            };
+        }
+    }
     let d = if spec.dense {
         // depth 4 only on positions that are not too crowded (quiescence can explode)
         if spec.pos().piece_count() <= 22 {
@@ -171,6 +187,9 @@ pub fn check(plans: &[Plan], recs: &[RunRec]) -> Outcome {
         keys.push(key);
         digests.push((pi, result_digest(&infos, best)));
         out.stats.inc("environments");
+        if views.first().is_some_and(|v| v.game.len() > 100) {
+            out.stats.inc("reach.long_game_history");
+        }
         out.stats.add("search_nodes_compared", infos.iter().filter_map(|i| parse_info(i).ok()).map(|p| p.nodes).max().unwrap_or(0));
         if h.lines.iter().any(|l| l.clock > v.deliver_clock && l.text != "quit") {
             out.stats.inc("reach.input_traffic_during_search");
